@@ -143,10 +143,14 @@ for sk, sc, sd in SIDES:
 
 # ---------------------------------------------------------------- C10
 fam('c10_uci_struct_roundtrip', 'C10', 'c10::uci_struct_roundtrip', 's12', 65, 2400, 10, 'all semilegal moves of the group', quick='all')
-fam_side('c10_uci_accept_exact', 'C10', 'c10::uci_accept_exact', 's12', 65, 5400, 24, FULL + ' x every UCI move value (64 x 64 x 5 + null)')
+for part, pc, pd in [('semi', 'UA_SEMI', 'semilegal reader <=> a semilegal move with these fields exists'),
+                     ('legal', 'UA_LEGAL', 'legal reader <=> a legal move with these fields exists'),
+                     ('make', 'UA_MAKE', 'applying the value <=> the legal reader accepts; null never')]:
+    fam_side('c10_uci_accept_' + part, 'C10', 'c10::uci_accept_exact', 's12', 65, 5400, 20, FULL + ' x every UCI move value (64 x 64 x 5 + null): ' + pd,
+             props=['C10', 'C02'], extra_const=', {crate::c10::%s}' % pc)
 reg('c10_uci_parse_exact', 'C10', QT, 600, 6, 'every well-formed UTF-8 string of at most 6 bytes', 'c10::uci_parse_exact', unwind=8,
     props=['C10', 'C12'])
-reg('c10_uci_text_roundtrip', 'C10', T, 2400, 16, 'every UCI move value, through core::fmt', 'c10::uci_text_roundtrip', unwind=8,
+reg('c10_uci_text_roundtrip', 'C10', T, 2400, 24, 'every UCI move value, through core::fmt', 'c10::uci_text_roundtrip', unwind=8,
     props=['C10', 'C12'])
 fam_side('c10_uci_string_readers', 'C10', 'c10::uci_string_readers', 's12', 65, 3600, 14, FULL + ' x every UTF-8 string of at most 5 bytes',
          tiers=T, props=['C10', 'C02'])
@@ -189,7 +193,7 @@ reg('c12_castling_parse', 'C12', QT, 600, 6, 'every UTF-8 string of at most 6 by
 reg('c12_castling_roundtrip', 'C12', QT, 900, 8, 'all 16 right sets through core::fmt', 'c12::castling_roundtrip', unwind=8, props=['C12', 'C20'])
 reg('c12_san_parse_total_5', 'C12', QT, 900, 8, 'every UTF-8 string of at most 5 bytes', 'c12::san_parse_total::<_, 5>', 's4', 9, props=['C12', 'C09'])
 reg('c12_san_parse_total_7', 'C12', T, 3600, 12, 'every UTF-8 string of at most 7 bytes', 'c12::san_parse_total::<_, 7>', 's4', 9, props=['C12', 'C09'])
-reg('c12_fen_board_field_18', 'C12', T, 3600, 12, 'FEN family (a): every space-free UTF-8 string of at most 18 bytes as the whole record',
+reg('c12_fen_board_field_18', 'C12', T, 3600, 18, 'FEN family (a): every space-free UTF-8 string of at most 18 bytes as the whole record',
     'c12::fen_board_field::<_, 18>', unwind=20)
 reg('c12_fen_tail_12', 'C12', T, 3600, 12, 'FEN family (b): board field 4k3/8/8/8/8/8/8/4K3 followed by every UTF-8 string of at most 12 bytes',
     'c12::fen_tail::<_, 12>', 's1', 66)
@@ -209,12 +213,18 @@ CHAIN_CASES = {
 for (st, pre), ops in CHAIN_CASES.items():
     for ok in ops:
         code = {'uci': 20, 'other': 30}.get(ok) or KGCODE[ok]
-        reg('c13_chain_step_s%d_p%d_%s' % (st, pre, ok), 'C13', T, 3600, 20,
-            'chain state = stated start position %d after stated concrete prefix %d; one symbolic operation (%s), optionally followed by a pop'
-            % (st, pre, 'push of any move of group ' + ok if code < 20 else ('push of any UCI value' if code == 20 else 'pop / set / clear / reset / automatic outcome')),
-            'c13::chain_step::<_, %d, %d, %d>' % (st, pre, code), 's13', 66,
-            bounds='pre-states from the stated finite sets START x PREFIX; BaseMoveChain<ArrRepeat>; two or more symbolic pushes are outside',
-            props=['C13', 'C14'])
+        what = 'push of any move of group ' + ok if code < 20 else ('push of any UCI value' if code == 20 else 'pop / set / clear / reset / automatic outcome')
+        # flags: bit 0 = followed by a pop, bit 1 = calculated outcome compared afterwards
+        variants = [('', 1)] if code < 30 else [('', 2)]
+        if code < 20 and ok in ('castling', 'ep', 'queen', 'knight', 'king'):
+            variants.append(('_outcome', 2))
+        for suffix, flags in variants:
+            reg('c13_chain_step_s%d_p%d_%s%s' % (st, pre, ok, suffix), 'C13', T, 3600, 14,
+                'chain state = stated start position %d after stated concrete prefix %d; one symbolic operation (%s)%s%s'
+                % (st, pre, what, ', then a pop' if flags & 1 else '', ', calculated outcome compared' if flags & 2 else ''),
+                'c13::chain_step::<_, %d, %d, %d, %d>' % (st, pre, code, flags), 's13', 66,
+                bounds='pre-states from the stated finite sets START x PREFIX; BaseMoveChain<ArrRepeat>; two or more symbolic pushes are outside',
+                props=['C13', 'C14'])
 for st, gk in [(0, 'pawn'), (0, 'king'), (0, 'castling'), (1, 'pspecial'), (4, 'king'), (5, 'knight')]:
     reg('c13_chain_eq_s%d_%s' % (st, gk), 'C13', T, 3600, 20, 'two chains (same start / other clocks / no castling rights / another start), one symbolic push of group %s and outcome each' % gk,
         'c13::chain_eq::<_, %d, %d>' % (st, KGCODE[gk]), 's13', 66)
@@ -263,14 +273,14 @@ QUICK = {
     'C09': ['c09_san_simple_pawn_refused', 'c09_san_into_move_castling_w', 'c09_san_into_move_pawnmove_b', 'c09_san_into_move_pawncapture_w',
             'c09_san_from_move_w_ep', 'c09_san_from_move_b_castling', 'c12_san_parse_total_5'],
     'C10': _g('c10_uci_struct_roundtrip', [(sd, g) for sd in 'wb' for g in ('king', 'pawn', 'knight', 'bishop', 'rook', 'queen', 'pspecial', 'ep', 'castling')])
-           + ['c10_uci_accept_exact_w', 'c10_uci_parse_exact'],
+           + ['c10_uci_accept_semi_w', 'c10_uci_accept_legal_b', 'c10_uci_accept_make_w', 'c10_uci_parse_exact'],
     'C11': ['c11_validate_exact_w', 'c11_validate_exact_b'],
     'C12': ['c12_coord_parse', 'c12_coord_roundtrip', 'c12_color_parse', 'c12_cell_parse', 'c12_castling_parse', 'c12_castling_roundtrip',
             'c12_san_parse_total_5', 'c10_uci_parse_exact'],
     'C13': ['c13_chain_step_s0_p0_castling', 'c13_chain_step_s0_p0_ep', 'c13_chain_step_s0_p0_pspecial', 'c13_chain_step_s1_p1_king', 'c13_chain_step_s0_p2_other',
             'c13_chain_step_s5_p4_other', 'c13_chain_step_s3_p0_queen', 'c13_chain_eq_s0_pawn', 'c13_chain_eq_s0_king'],
-    'C14': ['c14_outcome_filter_table', 'c14_chain_outcome_precedence', 'c07_outcome_classification_w', 'c13_chain_step_s5_p4_other', 'c13_chain_step_s5_p4_knight',
-            'c13_chain_step_s3_p0_queen'],
+    'C14': ['c14_outcome_filter_table', 'c14_chain_outcome_precedence', 'c07_outcome_classification_w', 'c13_chain_step_s5_p4_other', 'c13_chain_step_s5_p4_knight_outcome',
+            'c13_chain_step_s3_p0_queen_outcome'],
     'C15': ['c15_leapers_exact', 'c15_between_exact', 'c15_bishop_exact'],
     'C16': ['c16_attackers_exact_w', 'c16_attackers_exact_b'],
     'C17': ['c17_walker_s1_p3_concrete', 'c17_walker_s5_p4_concrete', 'c17_walker_s0_p1_king'],
@@ -291,7 +301,7 @@ THOROUGH = {
             'c01_legal_gen_list_all_?', 'c01_legal_gen_list_capture_b', 'c01_legal_gen_list_simple_w'],
     'C02': ['c02_make_move_step_?_*', 'c02_make_raw_step_?_ep', 'c02_make_raw_step_?_castling', 'c02_make_raw_step_?_pspecial', 'c02_make_raw_step_w_king', 'c02_make_raw_step_b_queen',
             'c02_make_raw_step_w_foreign', 'c02_make_move_step_direct_w_ep', 'c02_make_move_step_direct_b_castling', 'c09_san_simple_pawn_refused',
-            'c09_san_into_move_castling_?', 'c09_san_into_move_pawnshort_w', 'c09_san_into_move_simple_b', 'c10_uci_accept_exact_?', 'c10_uci_parse_exact',
+            'c09_san_into_move_castling_?', 'c09_san_into_move_pawnshort_w', 'c09_san_into_move_simple_b', 'c10_uci_accept_*', 'c10_uci_parse_exact',
             'c10_uci_string_readers_w', 'c13_chain_step_s0_p0_*', 'c13_chain_step_s1_p1_king'],
     'C03': ['c03_make_unmake_*'],
     'C04': ['c03_make_unmake_*', 'c04_nested_w_ep', 'c04_nested_b_castling', 'c04_nested_w_pspecial', 'c04_nested_b_king', 'c13_chain_step_s0_p1_other', 'c17_walker_s5_p3_concrete'],
